@@ -760,6 +760,9 @@ func genValues(r *rng, tier string) (vals []GV, tags [][]string) {
 	add(GV{T: "struct", ID: 1, Elems: []GV{gInt("KInt", "1"), gSlice("EInt", gInt("KInt", "2"))}}, "kind=struct", "non_comparable")
 	add(GV{T: "struct", ID: 2, Elems: []GV{gInt("KInt", "1"), gStr(3)}}, "kind=struct")
 	add(GV{T: "struct", ID: 3, Elems: []GV{nan}}, "kind=struct", "nan")
+	// a flyt.Result held AS the value (in a Result, or stored in the store): a struct like any other
+	add(GV{T: "struct", ID: 12, Elems: []GV{{T: "bool", B: false}}}, "kind=struct", "value_is_a_Result")
+	add(GV{T: "struct", ID: 12, Elems: []GV{{T: "bool", B: true}}}, "kind=struct", "value_is_a_Result")
 	// random values
 	n := 1500
 	if tier == "thorough" {
